@@ -129,6 +129,15 @@ def expected_resolve(ops, root, extra):
         if nm not in table:
             raise KeyError(nm)
         return deref(table[nm], depth + 1)
+    # a Reference chain that leads back to itself is outside the contract, wherever the traversal meets it first
+    for x in scanned:
+        if kinds[x][0] == 'R':
+            try:
+                deref(x)
+            except KeyError:
+                pass
+            except RecursionError:
+                return ("cycle", None)
     try:
         r = deref(root)
         seen = set()
